@@ -371,6 +371,8 @@ class Evaluator:
                 rec.update(bv[1])
             for f in e.get("fields", []):
                 rec[f["name"]] = self.ev(f["e"], env)
+            if isinstance(e.get("path"), dict) and e["path"].get("dk") == "Variant":
+                return ("ctor", e["path"].get("path"), ("rec", rec))       # a struct-like enum variant keeps its name
             return ("rec", rec)
         if k == "array":
             return ("array",) + tuple(self.ev(x, env) for x in e["es"])
@@ -462,6 +464,13 @@ class Evaluator:
                 return v[0] == "ok" and (sub is None or self.bind(sub, v[1], env))
             if seg == "Err":
                 return v[0] == "err" and (sub is None or self.bind(sub, v[1], env))
+            if v[0] == "rec" and k == "pstruct":
+                for f in p.get("fields", []):
+                    if f["name"] not in v[1]:
+                        raise Unrecognised(f"struct pattern names field {f['name']} the value does not have")
+                    if not self.bind(f["p"], v[1][f["name"]], env):
+                        return False
+                return True
             if v[0] == "ctor":
                 subs = p["pats"] if k == "pts" else [f["p"] for f in p.get("fields", [])]
                 if hir.pat_path(p) != v[1]:
@@ -685,6 +694,13 @@ class Evaluator:
             return self.atoms["transmute"](args + [e.get("ty")])
         if short == "is_empty" and args and args[0][0] == "str":
             return ("bool", args[0][1] == "")
+        if cal.endswith("core::convert::Into<U>>::into") and len(args) == 1:
+            # the blanket `Into`: the `From` impl of the target type for the argument's type
+            src_ty = str(hir.simp(e["args"][0]).get("ty", "")).lstrip("&")
+            frm = f"<{e.get('ty')} as core::convert::From<{src_ty}>>::from"
+            fcrate = str(e.get("ty", "")).split("::")[0]
+            if fcrate in self.inline_crates and frm in self.facts.crate(fcrate)["_bodies"]:
+                return self.call_fn(fcrate, frm, args)
         crate = cal.lstrip("<&").split("::")[0]
         if crate in self.inline_crates and cal in self.facts.crate(crate)["_bodies"]:
             first = hir.simp(e["args"][0]) if e.get("args") else None
@@ -696,6 +712,19 @@ class Evaluator:
                     self._store(hir.peel(first), fin[0], env)
                 return r
             return self.call_fn(crate, cal, args)
+        if "*" in self.atoms:
+            # a call outside the inlinable crates, kept as an uninterpreted application; a `&mut` receiver's place then holds
+            # "the call applied to what it held" (the callee can only change the object through that reference)
+            v = self.atoms["*"](cal, args, e)
+            if v is not None:
+                first = hir.simp(e["args"][0]) if e.get("args") else None
+                by_mut = first is not None and (str(e.get("recv_adj_ty", "")).startswith("&mut") or (first.get("k") == "ref" and first.get("mut")))
+                if by_mut:
+                    pl = hir.peel(first)
+                    if hir.place_str(pl) is None:
+                        raise Unrecognised(f"{cal} mutates a temporary")
+                    self._store(pl, v, env)
+                return v
         raise Unrecognised(f"call to {cal}")
 
 
